@@ -1834,4 +1834,86 @@ theorem SInv.batch {g : GSys} {i : Nat} (hG : GInv g) (h : SInv g i) :
   simp only at this
   omega
 
+/-! ## the driver's completion phase -/
+
+/-- start every client that is not dead (no command is executed) -/
+def GSys.startAll (g : GSys) : GSys :=
+  { g with sys := { g.sys with clients := g.sys.clients.map fun (c : QClient) => if c.dead then c else c.start g.sys.clock } }
+
+/-- ghost version of `QSys.finish` -/
+def GSys.finish (g : GSys) : Nat → GSys
+  | 0 => g
+  | fuel + 1 =>
+    if g.startAll.sys.clients.any (fun (c : QClient) => !c.dead && c.pc.live) then
+      GSys.finish (g.startAll.run ((List.range g.startAll.sys.clients.length).map QSysEv.step)) fuel
+    else g.startAll
+
+theorem GSys.finish_sys (g : GSys) (tr : List String) (fuel : Nat) : (g.finish fuel).sys = (g.sys.finish tr fuel).1 := by
+  induction fuel generalizing g tr with
+  | zero => rfl
+  | succ n ih =>
+    unfold GSys.finish QSys.finish
+    simp only
+    split
+    · rename_i hany
+      have hany' : (g.sys.clients.map fun (c : QClient) => if c.dead then c else c.start g.sys.clock).any (fun (c : QClient) => !c.dead && c.pc.live) = true := hany
+      simp only [hany', if_true]
+      have hrun := GSys.run_sys g.startAll ((List.range g.startAll.sys.clients.length).map QSysEv.step) tr
+      rw [List.foldl_map] at hrun
+      rw [ih _ ((List.range g.startAll.sys.clients.length).foldl (fun (acc : QSys × List String) i => acc.1.stepT acc.2 (.step i)) (g.startAll.sys, tr)).2, hrun]
+      rfl
+    · rename_i hany
+      have hany' : ¬ (g.sys.clients.map fun (c : QClient) => if c.dead then c else c.start g.sys.clock).any (fun (c : QClient) => !c.dead && c.pc.live) = true := hany
+      simp only [hany']
+      rfl
+
+theorem GSys.finish_induction (Inv : GSys → Prop) (hstart : ∀ g, Inv g → Inv g.startAll)
+    (hrun : ∀ g (is : List Nat), Inv g → Inv (g.run (is.map QSysEv.step))) (g : GSys) (fuel : Nat) (h : Inv g) :
+    Inv (g.finish fuel) := by
+  induction fuel generalizing g with
+  | zero => exact h
+  | succ n ih =>
+    unfold GSys.finish
+    split
+    · exact ih _ (hrun _ _ (hstart g h))
+    · exact hstart g h
+
+theorem startAll_getElem? {g : GSys} {i : Nat} {c : QClient} (h : g.startAll.sys.clients[i]? = some c) :
+    ∃ c0, g.sys.clients[i]? = some c0 ∧ (c = c0 ∨ c = c0.start g.sys.clock) := by
+  have h' : (g.sys.clients.map fun (c : QClient) => if c.dead then c else c.start g.sys.clock)[i]? = some c := h
+  rw [List.getElem?_map] at h'
+  cases hc : g.sys.clients[i]? with
+  | none => rw [hc] at h'; cases h'
+  | some c0 =>
+    rw [hc] at h'
+    simp only [Option.map_some, Option.some.injEq] at h'
+    refine ⟨c0, rfl, ?_⟩
+    split at h'
+    · exact Or.inl h'.symm
+    · exact Or.inr h'.symm
+
+theorem GInv.startAll {g : GSys} (h : GInv g) : GInv g.startAll := by
+  refine ⟨h.cons, h.lt, h.enqLt, h.enqInc, h.cover, h.popNodup, h.popOut, h.src, h.popSrc, h.popRet, ?_⟩
+  intro i c hc
+  obtain ⟨c0, h0, rfl | rfl⟩ := startAll_getElem? hc
+  · exact h.clients i _ h0
+  · exact (h.clients i c0 h0).start _
+
+theorem TInv.startAll {g : GSys} (h : TInv g) : TInv g.startAll := by
+  refine ⟨?_, h.popT⟩
+  intro i c hc
+  obtain ⟨c0, h0, rfl | rfl⟩ := startAll_getElem? hc
+  · exact h.clients i _ h0
+  · exact (h.clients i c0 h0).start
+
+theorem GInv.finish {g : GSys} (h : GInv g) (fuel : Nat) : GInv (g.finish fuel) :=
+  GSys.finish_induction GInv (fun _ h => h.startAll) (fun _ _ h => h.run _) g fuel h
+
+theorem GTInv.finish {g : GSys} (hG : GInv g) (hT : TInv g) (fuel : Nat) : TInv (g.finish fuel) :=
+  (GSys.finish_induction (fun g => GInv g ∧ TInv g) (fun _ h => ⟨h.1.startAll, h.2.startAll⟩)
+    (fun _ is h => ⟨h.1.run _, GTInv.run h.1 h.2 _ (by
+      intro e he
+      obtain ⟨i, _, rfl⟩ := List.mem_map.1 he
+      trivial)⟩) g fuel ⟨hG, hT⟩).2
+
 end Swat4
